@@ -618,6 +618,266 @@ theorem balance_refuses_end_to_end (mode : Mode) (hm : mode ≠ .symbolic) (solv
   unfold balanceCore
   simp only [hsetup, htag]
 
+/-- **balance_complete_on_ray** — liveness at the level of the FUNCTION (success characterisation of `balance_end_to_end`):
+once the arguments resolved and the pre-check passed (`setupVia = ok (p, A)`, at least one composition key), if the positive
+coprime integer vector `x0` (one entry per species) balances `A` and the solver hands back ANY positive multiple of it, then the
+call returns — in all three modes — and the two dicts list exactly the species given with the entries of `x0`, in order. -/
+theorem balance_complete_on_ray (mode : Mode) (solver : Mat → Candidate) (table : List (String × Comp)) (arg : SubstArg)
+    (rset pset : Bool) (reac prod : List String) (p : Problem) (A : Mat)
+    (hs : setupVia table arg rset pset reac prod = .ok (p, A)) (hA : A ≠ [])
+    (x0 : List ℤ) (t : ℚ) (ht : 0 < t) (hne : x0 ≠ []) (h0pos : ∀ k ∈ x0, 0 < k) (h0co : listGcd x0 = 1)
+    (hlen : x0.length = (p.reactants ++ p.products).length) (hbal : Balances A (toQ x0))
+    (hsolver : solver A = .numeric ((toQ x0).map (t * ·))) (hr : p.reactants.Nodup) (hp : p.products.Nodup) :
+    ∃ r pr, balanceVia mode solver table arg rset pset reac prod = .ok (r, pr) ∧
+      r.map (·.1) = p.reactants ∧ pr.map (·.1) = p.products ∧ r.map (·.2) ++ pr.map (·.2) = toEntries x0 := by
+  have hsetup := setupVia_setup table arg rset pset reac prod p A hs
+  have hwf := setup_wellFormed p A hsetup
+  have hcols : cols A = x0.length := by rw [setup_cols p A hsetup hA, hlen]
+  have hgate := gate_complete_on_ray mode A x0 t ht hne h0pos h0co hwf hcols hbal
+  obtain ⟨r, h1⟩ := mkDict_some mode (p.reactants ++ p.products) x0 hlen p.reactants
+    (fun k hk => List.mem_append_left _ hk)
+  obtain ⟨pr, h2⟩ := mkDict_some mode (p.reactants ++ p.products) x0 hlen p.products
+    (fun k hk => List.mem_append_right _ hk)
+  have hdis := setup_disjoint p A hsetup
+  have hnd : (p.reactants ++ p.products).Nodup := by
+    rw [List.nodup_append]
+    exact ⟨hr, hp, fun a ha b hb hab => hdis b hb (hab ▸ ha)⟩
+  refine ⟨r, pr, ?_, mkDict_keys _ _ _ _ _ h1 hr, mkDict_keys _ _ _ _ _ h2 hp,
+    dict_values mode p.reactants p.products x0 r pr hnd hlen h1 h2⟩
+  unfold balanceVia
+  simp only [hs]
+  unfold balanceCore
+  simp only [hsetup, hsolver, hgate, toEntries, h1, h2]
+
+/-- **composition_keys_spec**: `Substance.composition_keys` is THE strictly increasing list of the keys that occur in some
+substance — every key of every substance (elements and net charge) is in it, nothing else, no repeats. -/
+theorem composition_keys_spec (subs : List (String × Comp)) :
+    (∀ k : ℤ, k ∈ compositionKeys subs ↔ ∃ s ∈ subs, k ∈ s.2.map (·.1)) ∧
+      (compositionKeys subs).Pairwise (· < ·) :=
+  ⟨mem_compositionKeys subs,
+    sortedSet_pairwise (fun a b => lt_trichotomy a b) (fun _ _ _ => lt_trans) _⟩
+
+/-- **balance_end_to_end_sets**: when both sides are passed as Python `set`s no distinctness hypothesis is needed at all
+(a sorted set has no repeats): keys = the sorted species, coefficients positive coprime integers, every key balanced. -/
+theorem balance_end_to_end_sets (mode : Mode) (hm : mode ≠ .symbolic) (solver : Mat → Candidate)
+    (hsolver : ∀ A, ∃ v, solver A = .numeric v) (table : List (String × Comp)) (arg : SubstArg)
+    (reac prod : List String) (r pr : List (String × Entry))
+    (h : balanceVia mode solver table arg true true reac prod = .ok (r, pr)) :
+    r.map (·.1) = sortedSet reac ∧ pr.map (·.1) = sortedSet prod ∧
+    ∃ kr kp : List ℤ, r.map (·.2) = toEntries kr ∧ pr.map (·.2) = toEntries kp ∧
+      (∀ k ∈ kr ++ kp, 0 < k) ∧ listGcd (kr ++ kp) = 1 ∧
+      ∃ subs rc pc, resolve table arg reac prod = some subs ∧
+        lookupAll subs (sortedSet reac) = some rc ∧ lookupAll subs (sortedSet prod) = some pc ∧
+        ∀ ck : ℤ, dot (rc.map (·.get ck)) (toQ kr) = dot (pc.map (·.get ck)) (toQ kp) := by
+  have := balance_end_to_end mode hm solver hsolver table arg true true reac prod r pr h
+    (by simpa using sortedSet_nodup_string reac) (by simpa using sortedSet_nodup_string prod)
+  simpa using this
+
+/-- **balance_call_end_to_end** (clause "with and without duplicate species allowed"): whatever the WHOLE function —
+duplicate search included — returns in a numeric mode, for list sides with distinct names: the keys are a selection of the
+species given (sub-lists of the two sides, no species on both sides), the coefficients are positive coprime integers, and every
+composition key has equal totals on both sides, computed from this call's compositions. -/
+theorem balance_call_end_to_end (raw : RawMode) (hm : raw.mode ≠ .symbolic) (allowDup : Bool) (solver : Mat → Candidate)
+    (hsolver : ∀ A, ∃ v, solver A = .numeric v) (table : List (String × Comp)) (arg : SubstArg)
+    (reac prod : List String) (hr : reac.Nodup) (hp : prod.Nodup) (r pr : List (String × Entry))
+    (h : balanceCall raw allowDup solver table arg reac prod = .ok (r, pr)) :
+    (∀ s ∈ r.map (·.1), s ∈ reac) ∧ (∀ s ∈ pr.map (·.1), s ∈ prod) ∧ (∀ s ∈ r.map (·.1), s ∉ pr.map (·.1)) ∧
+    ∃ kr kp : List ℤ, r.map (·.2) = toEntries kr ∧ pr.map (·.2) = toEntries kp ∧
+      (∀ k ∈ kr ++ kp, 0 < k) ∧ listGcd (kr ++ kp) = 1 ∧
+      ∃ subs rc pc, lookupAll subs (r.map (·.1)) = some rc ∧ lookupAll subs (pr.map (·.1)) = some pc ∧
+        ∀ ck : ℤ, dot (rc.map (·.get ck)) (toQ kr) = dot (pc.map (·.get ck)) (toQ kp) := by
+  obtain ⟨r', p', hc, h1, h2, h3, h4, h5⟩ := dupSearch_selection_nodup _ _ _ _ _ _ _ hr hp h
+  obtain ⟨hk1, hk2, kr, kp, e1, e2, hpos, hco, subs, rc, pc, _, hrc, hpc, hbal⟩ :=
+    balance_end_to_end raw.mode hm solver hsolver table arg false false r' p' r pr hc (by simpa using h4) (by simpa using h5)
+  simp only [Bool.false_eq_true, if_false] at hk1 hk2 hrc hpc
+  refine ⟨?_, ?_, ?_, kr, kp, e1, e2, hpos, hco, subs, rc, pc, ?_, ?_, hbal⟩
+  · rw [hk1]; exact h1
+  · rw [hk2]; exact h2
+  · rw [hk1, hk2]; exact h3
+  · rw [hk1]; exact hrc
+  · rw [hk2]; exact hpc
+
+
+/-- **gate_ok_iff_of_pos** (success characterisation of the gate): for a POSITIVE numeric solver answer `v`, in both numeric
+modes, chempy returns an answer if and only if `v` has one entry per species of a well-formed matrix and balances it —
+nothing else makes it refuse, nothing less makes it accept. -/
+theorem gate_ok_iff_of_pos (mode : Mode) (hm : mode ≠ .symbolic) (A : Mat) (v : Vec) (hne : v ≠ [])
+    (hpos : ∀ q ∈ v, 0 < q) :
+    (∃ x, gate mode A (.numeric v) = .ok x) ↔ (wellFormed A = true ∧ cols A = v.length ∧ Balances A v) := by
+  obtain ⟨d, hd, hst⟩ := stage_norm_pos v hne hpos
+  have hdne : d ≠ 0 := ne_of_gt hd
+  have hscale : ∀ r : List ℚ, dot r v = d * dot r (v.map (· / d)) := by
+    intro r
+    have : v.map (· / d) = v.map ((1 / d) * ·) := by
+      apply List.map_congr_left; intro q _; field_simp
+    rw [this, dot_map_mul_right]; field_simp
+  have hwpos : ∀ q ∈ v.map (· / d), 0 < q := by
+    intro q hq
+    obtain ⟨a, ha, rfl⟩ := List.mem_map.1 hq
+    exact div_pos (hpos a ha) hd
+  constructor
+  · rintro ⟨x, h⟩
+    have hsol := gate_numeric_ok_sol mode A v x h
+    rw [hst] at hsol
+    injection hsol with hx
+    unfold gate at h
+    simp only [hst] at h
+    obtain ⟨_, hwf, hcols, w, hw, _, hbal⟩ := gateChecks_numeric mode hm A _ x h
+    have hww : v.map (· / d) = w := map_num_injective _ _ hw
+    refine ⟨hwf, by rw [hcols]; simp, ?_⟩
+    intro r hr
+    rw [hscale r, hww, hbal r hr, mul_zero]
+  · rintro ⟨hwf, hcols, hbal⟩
+    refine ⟨(v.map (· / d)).map Entry.num, ?_⟩
+    unfold gate
+    simp only [hst]
+    apply gateChecks_pass mode A _ hwpos hwf (by simpa using hcols)
+    intro r hr
+    have := hbal r hr
+    rw [hscale r] at this
+    rcases mul_eq_zero.1 this with h | h
+    · exact absurd h hdne
+    · exact h
+
+/-! ### what chempy's own code contributes to the "minimal coefficient sum" clause (the ILP optimum itself is CBC's) -/
+
+/-- **min_sum_is_coprime**: a positive integer balancing vector of minimal coefficient sum is jointly coprime
+(otherwise dividing by the gcd gives a balancing vector with a smaller sum). -/
+theorem min_sum_is_coprime (A : Mat) (x : List ℤ) (hne : x ≠ []) (hpos : ∀ k ∈ x, 0 < k) (hbal : Balances A (toQ x))
+    (hmin : ∀ y : List ℤ, y.length = x.length → (∀ k ∈ y, 0 < k) → Balances A (toQ y) → x.sum ≤ y.sum) :
+    listGcd x = 1 := by
+  have hg := listGcd_pos x hne hpos
+  have hgz : (0 : ℤ) < (listGcd x : ℤ) := by exact_mod_cast hg
+  have hx : x = (x.map (· / (listGcd x : ℤ))).map ((listGcd x : ℤ) * ·) := by
+    rw [List.map_map]
+    conv_lhs => rw [← List.map_id x]
+    apply List.map_congr_left
+    intro k hk
+    simp only [id, Function.comp_apply]
+    exact (Int.mul_ediv_cancel' (listGcd_dvd x k hk)).symm
+  have hypos : ∀ k ∈ x.map (· / (listGcd x : ℤ)), 0 < k := by
+    intro k hk
+    obtain ⟨a, ha, rfl⟩ := List.mem_map.1 hk
+    have h1 := hpos a ha
+    have h2 := Int.mul_ediv_cancel' (listGcd_dvd x a ha)
+    by_contra hneg
+    have : (listGcd x : ℤ) * (a / (listGcd x : ℤ)) ≤ 0 :=
+      Int.mul_nonpos_of_nonneg_of_nonpos (le_of_lt hgz) (not_lt.1 hneg)
+    omega
+  have hybal : Balances A (toQ (x.map (· / (listGcd x : ℤ)))) := by
+    intro r hr
+    have h0 := hbal r hr
+    rw [hx] at h0
+    have : toQ ((x.map (· / (listGcd x : ℤ))).map ((listGcd x : ℤ) * ·))
+        = (toQ (x.map (· / (listGcd x : ℤ)))).map (((listGcd x : ℤ) : ℚ) * ·) := by
+      simp [toQ, List.map_map, Function.comp_def]
+    rw [this, dot_map_mul_right] at h0
+    have hgq : ((listGcd x : ℤ) : ℚ) ≠ 0 := by exact_mod_cast (ne_of_gt hgz)
+    rcases mul_eq_zero.1 h0 with h | h
+    · exact absurd h hgq
+    · exact h
+  have hle := hmin _ (by simp) hypos hybal
+  have hsum : x.sum = (listGcd x : ℤ) * (x.map (· / (listGcd x : ℤ))).sum := by
+    conv_lhs => rw [hx]
+    exact sum_map_mul_left _ _
+  have hS : 0 < (x.map (· / (listGcd x : ℤ))).sum :=
+    sum_pos_of_pos _ (by cases x with | nil => exact absurd rfl hne | cons _ _ => simp) hypos
+  have : (listGcd x : ℤ) ≤ 1 := by
+    by_contra hgt
+    have h2 : (2 : ℤ) ≤ (listGcd x : ℤ) := by omega
+    nlinarith
+  omega
+
+/-- **gate_divides_by_gcd** ("never increases the sum"): for ANY positive integer vector `v` the solver (the ILP) hands
+over, what the gate returns — in any mode — is exactly `v / gcd v`: `v = gcd(v) · ks` entrywise, hence `sum ks ≤ sum v`.
+Chempy's own code can only shrink the coefficient sum of the solver's answer, never enlarge or reshape it. -/
+theorem gate_divides_by_gcd (mode : Mode) (A : Mat) (v : List ℤ) (hne : v ≠ []) (hpos : ∀ k ∈ v, 0 < k)
+    (x : List Entry) (h : gate mode A (.numeric (toQ v)) = .ok x) :
+    ∃ ks : List ℤ, x = toEntries ks ∧ v = ks.map ((listGcd v : ℤ) * ·) ∧ listGcd ks = 1 ∧ ks.sum ≤ v.sum := by
+  have hst := gate_numeric_ok_sol mode A (toQ v) x h
+  have hvpos : ∀ q ∈ toQ v, 0 < q := by
+    intro q hq
+    obtain ⟨k, hk, rfl⟩ := List.mem_map.1 hq
+    exact_mod_cast hpos k hk
+  have hvne : toQ v ≠ [] := by
+    cases v with
+    | nil => exact absurd rfl hne
+    | cons _ _ => simp [toQ]
+  obtain ⟨d, hd, hst'⟩ := stage_norm_pos (toQ v) hvne hvpos
+  rw [hst] at hst'
+  injection hst' with hx
+  rw [hx] at hst
+  obtain ⟨ks, hks, hco⟩ := stage2_sound _ _ hst
+  -- toQ v = d • toQ ks
+  have hray : v.map (fun (k : ℤ) => (k : ℚ)) = ks.map (fun (k : ℤ) => d * (k : ℚ)) := by
+    have h1 : (toQ v).map (· / d) = ks.map (fun (k : ℤ) => (k : ℚ)) := hks
+    have h2 : ((toQ v).map (· / d)).map (d * ·) = toQ v := by
+      rw [List.map_map]
+      conv_rhs => rw [← List.map_id (toQ v)]
+      apply List.map_congr_left
+      intro q _
+      simp only [Function.comp_apply, id]
+      field_simp
+    rw [h1, List.map_map] at h2
+    rw [← toQ, ← h2]
+    rfl
+  have hint := ray_to_int d ks v hray
+  have hg := congrArg listGcd hint
+  rw [listGcd_map_mul, listGcd_map_mul, hco] at hg
+  simp only [Int.natAbs_natCast, Nat.mul_one] at hg
+  have hnum : 0 < d.num := Rat.num_pos.2 hd
+  have hnumeq : d.num = (d.den : ℤ) * (listGcd v : ℤ) := by
+    have : (d.num.natAbs : ℤ) = d.num := Int.natAbs_of_nonneg (le_of_lt hnum)
+    rw [← this, ← hg]; push_cast; ring
+  have hden : (0 : ℤ) < (d.den : ℤ) := by exact_mod_cast d.den_pos
+  have hv : v = ks.map ((listGcd v : ℤ) * ·) := by
+    have h3 : v.map ((d.den : ℤ) * ·) = (ks.map ((listGcd v : ℤ) * ·)).map ((d.den : ℤ) * ·) := by
+      rw [hint, hnumeq, List.map_map]
+      apply List.map_congr_left
+      intro k _
+      simp only [Function.comp_apply]
+      ring
+    exact (List.map_injective_iff.2 (fun a b hab => by
+      have : (d.den : ℤ) * a = (d.den : ℤ) * b := hab
+      exact Int.eq_of_mul_eq_mul_left (ne_of_gt hden) this)) h3
+  have hkspos : ∀ k ∈ ks, 0 < k := by
+    intro k hk
+    have hq : (0 : ℚ) < (k : ℚ) := by
+      have hm : (k : ℚ) ∈ (toQ v).map (· / d) := by rw [hks]; exact List.mem_map.2 ⟨k, hk, rfl⟩
+      obtain ⟨q, hq, hqk⟩ := List.mem_map.1 hm
+      rw [← hqk]
+      exact div_pos (hvpos q hq) hd
+    exact_mod_cast hq
+  refine ⟨ks, ?_, hv, hco, ?_⟩
+  · rw [hx, hks]; simp [toEntries, List.map_map, Function.comp_def]
+  · have hgpos : (1 : ℤ) ≤ (listGcd v : ℤ) := by
+      have := listGcd_pos v hne hpos
+      exact_mod_cast this
+    have hsum : v.sum = (listGcd v : ℤ) * ks.sum := by
+      conv_lhs => rw [hv]
+      exact sum_map_mul_left _ _
+    have hS : 0 ≤ ks.sum := by
+      cases ks with
+      | nil => simp
+      | cons a r => exact le_of_lt (sum_pos_of_pos _ (by simp) hkspos)
+    nlinarith
+
+/-- **smallest_mode_returns_minimal**: if the vector the ILP hands over is a positive integer balancing vector of
+minimal coefficient sum (CBC's contract — certified per instance by `minimalBySearch`), then mode `None` returns exactly
+that vector: the gate neither refuses nor changes it. -/
+theorem smallest_mode_returns_minimal (A : Mat) (x : List ℤ) (hne : x ≠ []) (hpos : ∀ k ∈ x, 0 < k)
+    (hwf : wellFormed A = true) (hcols : cols A = x.length) (hbal : Balances A (toQ x))
+    (hmin : ∀ y : List ℤ, y.length = x.length → (∀ k ∈ y, 0 < k) → Balances A (toQ y) → x.sum ≤ y.sum) :
+    gate .smallest A (.numeric (toQ x)) = .ok (toEntries x) := by
+  have hco := min_sum_is_coprime A x hne hpos hbal hmin
+  have := gate_complete_on_ray .smallest A x 1 one_pos hne hpos hco hwf hcols hbal
+  have hid : (toQ x).map ((1 : ℚ) * ·) = toQ x := by
+    conv_rhs => rw [← List.map_id (toQ x)]
+    apply List.map_congr_left
+    intro q _
+    simp
+  rwa [hid] at this
+
 /-! ### the hypotheses are satisfiable: concrete non-trivial instances -/
 
 /-- C2H2 + O2 -> CO + H2O, rows C, H, O; the solver hands back the non-normalised (2, 3, 4, 2)/2 -/
@@ -688,5 +948,76 @@ example : balanceVia .smallest (fun _ => .numeric [-1, 2, 1])
 /-- `underdetermined=1` with duplicates is a NotImplementedError (the test is on the raw argument), `None` searches -/
 example : balanceCall .one true (fun _ => .numeric [2, 1]) [("C", [(6, 1)]), ("CO", [(6, 1), (8, 1)]), ("CO2", [(6, 1), (8, 2)])]
     .mapping ["C", "CO"] ["C", "CO", "CO2"] = .error .notImplemented := by decide +kernel
+
+/-- `gate_divides_by_gcd` on a concrete ILP-style answer: (4, 2, 4) for H2 + O2 -> H2O comes back as (2, 1, 2) -/
+example : gate .smallest [[-2, 0, 2], [0, -2, 1]] (.numeric (toQ [4, 2, 4])) = .ok (toEntries [2, 1, 2]) ∧
+    listGcd [4, 2, 4] = 2 := by
+  constructor
+  · decide +kernel
+  · decide
+
+/-- the minimality hypothesis of `smallest_mode_returns_minimal` / `min_sum_is_coprime` discharged for H2 + O2 -> H2O:
+every positive integer balancing vector is (2b, b, 2b), so (2, 1, 2) has minimal sum; hence mode None returns it -/
+example : gate .smallest [[-2, 0, 2], [0, -2, 1]] (.numeric (toQ [2, 1, 2])) = .ok (toEntries [2, 1, 2]) := by
+  apply smallest_mode_returns_minimal _ [2, 1, 2] (by simp) (by decide) (by decide) (by decide)
+  · intro r hr
+    simp only [List.mem_cons, List.not_mem_nil, or_false] at hr
+    rcases hr with rfl | rfl <;> simp [toQ, dot]
+  · intro y hl hpos hb
+    match y, hl with
+    | [a, b, c], _ =>
+      have h1 := hb [-2, 0, 2] (by simp)
+      have h2 := hb [0, -2, 1] (by simp)
+      simp only [dot, toQ, List.map_cons, List.map_nil] at h1 h2
+      have hb1 : 0 < b := hpos b (by simp)
+      have e1 : (c : ℚ) = a := by linarith
+      have e2 : (c : ℚ) = 2 * b := by linarith
+      have e1' : c = a := by exact_mod_cast e1
+      have e2' : c = 2 * b := by exact_mod_cast e2
+      simp only [List.sum_cons, List.sum_nil]
+      omega
+
+/-- compositions of C2H2, O2, CO, H2O (keys: atomic numbers) -/
+def acetyleneTable : List (String × Comp) :=
+  [("C2H2", [(6, 2), (1, 2)]), ("O2", [(8, 2)]), ("CO", [(6, 1), (8, 1)]), ("H2O", [(1, 2), (8, 1)])]
+
+/-- `balance_complete_on_ray` instantiated: for C2H2 + O2 -> CO + H2O the modelled call returns (2, 3, 4, 2) under the species
+given, in every mode, whatever positive multiple of the ray the solver hands back -/
+example (mode : Mode) (t : ℚ) (ht : 0 < t) :
+    ∃ r pr, balanceVia mode (fun _ => .numeric ((toQ [2, 3, 4, 2]).map (t * ·))) acetyleneTable .mapping false false
+        ["C2H2", "O2"] ["CO", "H2O"] = .ok (r, pr) ∧
+      r.map (·.1) = ["C2H2", "O2"] ∧ pr.map (·.1) = ["CO", "H2O"] ∧ r.map (·.2) ++ pr.map (·.2) = toEntries [2, 3, 4, 2] :=
+  balance_complete_on_ray mode _ acetyleneTable .mapping false false _ _
+    { reactants := ["C2H2", "O2"], products := ["CO", "H2O"], substances := acetyleneTable }
+    [[-2, 0, 0, 2], [-2, 0, 1, 0], [0, -2, 1, 1]] (by decide +kernel) (by simp) [2, 3, 4, 2] t ht (by simp) (by decide) (by decide)
+    (by decide)
+    (by intro r hr; simp only [List.mem_cons, List.not_mem_nil, or_false] at hr
+        rcases hr with rfl | rfl | rfl <;> simp [toQ, dot] <;> norm_num)
+    rfl (by decide) (by decide)
+
+example : compositionKeys acetyleneTable = [1, 6, 8] := by decide
+
+/-- sides passed as sets: sorted, no distinctness hypothesis needed -/
+example : balanceVia .smallest (fun _ => .numeric [2, 3, 4, 2]) acetyleneTable .mapping true true
+    ["O2", "C2H2", "O2"] ["H2O", "CO"]
+    = .ok ([("C2H2", .num 2), ("O2", .num 3)], [("CO", .num 4), ("H2O", .num 2)]) := by decide +kernel
+
+/-- the documented duplicates example C + CO -> C + CO + CO2: the whole modelled function returns 2 CO -> C + CO2 -/
+example : balanceCall .none true (fun _ => .numeric [2, 1, 1])
+    [("C", [(6, 1)]), ("CO", [(6, 1), (8, 1)]), ("CO2", [(6, 1), (8, 2)])] .mapping ["C", "CO"] ["C", "CO", "CO2"]
+    = .ok ([("CO", .num 2)], [("C", .num 1), ("CO2", .num 1)]) := by decide +kernel
+
+
+/-- both directions are exercised: (1, 1/2, 1) balances H2 + O2 -> H2O and is accepted, (1, 1, 1) does not and is refused -/
+example : (∃ x, gate .strict [[-2, 0, 2], [0, -2, 1]] (.numeric [1, 1/2, 1]) = .ok x) ∧
+    ¬ ∃ x, gate .strict [[-2, 0, 2], [0, -2, 1]] (.numeric [1, 1, 1]) = .ok x := by
+  constructor
+  · exact ⟨toEntries [2, 1, 2], by decide +kernel⟩
+  · rw [gate_ok_iff_of_pos .strict (by decide) _ _ (by simp) (by intro q hq; simp at hq; (rcases hq with rfl; norm_num))]
+    rintro ⟨_, _, hb⟩
+    have := hb [0, -2, 1] (by simp)
+    simp [dot] at this
+    norm_num at this
+
 
 end ChemModel.C02
